@@ -266,6 +266,13 @@ func visitInline(fw *formatWriter, source []byte, cursor *commonmark.Cursor) boo
 		return false
 	case commonmark.InfoStringKind, commonmark.LinkDestinationKind, commonmark.LinkLabelKind, commonmark.LinkTitleKind:
 		return false
+	case commonmark.IndentKind:
+		// What is left of a tab after a container took part of it:
+		// copying the tab itself would make it content of the line again.
+		for i := child.IndentWidth(); i > 0; i-- {
+			fw.s(" ")
+		}
+		return false
 	default:
 		if !child.Span().IsValid() {
 			return false
